@@ -176,8 +176,37 @@ def conversions():
     return S
 
 
-def boundary_inputs(name):
-    """concrete inputs for translator/contract validation (boundaries + the repo's own test inputs)"""
+def boundary_inputs(name, seed=0):
+    """concrete inputs for translator/contract validation: boundaries, the repo's own test inputs, and
+    pseudo-random full-width values drawn from VERIF_SEED"""
+    import random
+    out = _boundary_inputs(name)
+    rnd = random.Random(f"{seed}-{name}")
+    C = Consts
+    def u(bits):
+        # mix of magnitudes: uniform over bit lengths, then uniform below that
+        return rnd.getrandbits(rnd.randint(1, bits))
+    extra = []
+    for _ in range(150):
+        if name in ("dur_new", "dur_from_millis", "dur_from_secs", "dur_to_std", "dur_to_td"):
+            extra.append([u(64)])
+        elif name == "std_to_dur":
+            extra.append([u(64), rnd.randrange(NPS)])
+        elif name in ("inst_new", "inst_to_st", "inst_to_dt"):
+            extra.append([u(64), rnd.choice([rnd.randrange(NPS), u(32)])])
+        elif name == "st_to_inst":
+            extra.append([rnd.choice([1, 1, 1, -1]) * u(62), rnd.randrange(NPS)])
+        elif name == "td_to_dur":
+            extra.append([rnd.choice([1, -1]) * min(u(63), C.TD_MAX_SECS - 1), rnd.randrange(NPS)])
+        elif name == "dt_to_inst":
+            sod = rnd.randrange(86400)
+            frac = rnd.randrange(NPS) if (sod % 60 != 59 or rnd.random() < 0.5) else rnd.randrange(NPS, 2 * NPS)
+            extra.append([rnd.randint(C.MIN_DAYS, C.MAX_DAYS), sod, frac])
+    return out + extra
+
+
+def _boundary_inputs(name):
+    """boundaries + the repo's own test inputs"""
     C = Consts
     big = [0, 1, 999, 1000, NPS - 1, NPS, NPS + 1, 1_000_000_000 * 1_000_000_000, I64MAX - 1, I64MAX, I64MAX + 1, U64MAX - 1, U64MAX,
            U64MAX // NPS, U64MAX // NPS + 1, U64MAX // 1000000, U64MAX // 1000000 + 1, 18446744073, 18446744074, 1 << 32, (1 << 32) - 1]
